@@ -5,7 +5,7 @@ from ..program import AnalysisError, U, own_nodes, walk_no_nested
 from ..dataflow import ReachingDefs, defs_of_node
 from ..consteval import fold, module_consts
 from .common import (deep_origin, cond_forms, otext, need, guards_of, calls_to, ext_calls, all_paths_pass, succs, normal_succs, path_conditions,
-                     is_param, interval_of, arg_of, default_of, INF, stores_in_package)
+                     is_param, interval_of, arg_of, default_of, INF, stores_in_package, g_rd)
 
 PROPERTY = 'C10'
 LEVEL = 'other'
@@ -225,15 +225,28 @@ def _is_header_get(e, resp, name):
         and isinstance(e.args[0], ast.Constant) and e.args[0].value == name
 
 
+def _node_of(g, e):
+    for n in g.live_nodes():
+        for root in (n.exprs or ([n.ast] if n.ast is not None else [])):
+            if root is not None and any(x is e for x in walk_no_nested(root)):
+                return n
+    return None
+
+
 def _is_challenge(R, g, e):
     """b64encode(sha1(self.key + constants.WS_KEY).digest())"""
     if not (isinstance(e, ast.Call) and any(t.kind == 'ext' and t.name == 'base64.b64encode'
                                             for t in R.types.call_targets(e, g.ctx)) and e.args):
         return False
     d = e.args[0]
+    at = _node_of(g, e)
+    if isinstance(d, ast.Name) and at is not None:
+        d, at = g_rd(g).origin(at, d)
     if not (isinstance(d, ast.Call) and isinstance(d.func, ast.Attribute) and d.func.attr == 'digest'):
         return False
     h = d.func.value
+    if isinstance(h, ast.Name) and at is not None:
+        h, at = g_rd(g).origin(at, h)
     if not (isinstance(h, ast.Call) and any(t.kind == 'ext' and t.name == 'hashlib.sha1'
                                             for t in R.types.call_targets(h, g.ctx)) and h.args):
         return False
@@ -480,7 +493,7 @@ def limit(R, RID='C10.limit', recv='frame_parser.ClientFrameParser'):
                  'with the terminator found the check is applied to %s (frame bytes after the header in the same read '
                  'would count against the header limit)' % U(a), func=f3, node=c_)
         elif n in g3.reachable(nf, skip_edge=nx):
-            R.ob(RID, 'not-found arm checks the accumulated length', U(a) in ('len(_buffer)', 'len(self._buffer)'),
+            R.ob(RID, 'not-found arm checks the accumulated length', (U(a) in ('len(_buffer)', 'len(self._buffer)') or otext(R, g3, n, a) in ('len(_buffer)', 'len(self._buffer)')),
                  'without terminator the check is applied to %s' % U(a), func=f3, node=c_)
         else:
             R.ob(RID, 'length check placement', n in g3.succ_reach(fn, skip_edge=nx) and
